@@ -131,6 +131,7 @@ class H:
         self.nv = 0
         self.round = 0
         self.ndecoy = 0
+        self.block_ended = anyio.Event()
 
     def val(self, tag: str, falsy: bool = False) -> Any:
         class V:
@@ -352,11 +353,20 @@ class H:
                 sim.log("svc_start", svc=name, parent_is_real=c.parent is h.real, fresh=c is not h.real)
                 await sim.pause(0, spec.get("delay", 0.0))
                 task_status.started(name)
-                await anyio.sleep(1e6)
+                if spec.get("action") == "none":
+                    # nobody stops this task: it ends by itself a little after the calling
+                    # context's block has ended, and teardown has to wait for that
+                    await h.block_ended.wait()
+                    await anyio.sleep(spec.get("tail", 1.0))
+                else:
+                    await anyio.sleep(1e6)
             finally:
                 sim.log("svc_end", svc=name)
 
-        ret = await start_service_task(body, name)
+        if spec.get("action") == "none":
+            ret = await start_service_task(body, name, teardown_action=None)
+        else:
+            ret = await start_service_task(body, name)
         sim.log("svc_reg", svc=name, path=path, ret=ret)
 
     async def childctx(self, path: str, phase: str) -> None:
@@ -469,6 +479,7 @@ def make_main(plan: dict):
                     ctx = await outer_stack.enter_async_context(_Logged(real_ctx, sim, rnd))
                     h.real = ctx
                     h.instances = {}
+                    h.block_ended = anyio.Event()
                     t0 = sim.now()
                     sim.log("sc_call", t=t0, round=rnd)
                     kw: dict[str, Any] = {}
@@ -543,7 +554,9 @@ def make_main(plan: dict):
                             if all(n_.startswith("T") and n_[1:].isdigit() for n_ in names_):
                                 sim.log("res_event", types=names_, name=ev.resource_name, is_factory=ev.is_factory, round=rnd)
                     sim.log("block_end", round=rnd)
+                    h.block_ended.set()
             except BaseException as e:
+                h.block_ended.set()
                 sim.log("ctx_exit", exc=f"{type(e).__name__}: {str(e)[:80]}", round=rnd)
                 if contains_cancel(e) or sim.aborting:
                     raise
@@ -621,6 +634,15 @@ def model_timeline(plan: dict) -> dict:
     injected failure strikes.  None = never (blocked forever)."""
     tree = plan["tree"]
     pubtime: dict[tuple, float] = {}
+    genstart: dict[str, float] = {}
+    fdur_of: dict[tuple, tuple] = {}
+    for _p, n_ in walk(tree):
+        for ph_ in ("prepare", "start"):
+            for a_ in n_.get(ph_) or ():
+                if a_[0] == "pub" and a_[1].get("fac") and a_[1].get("fdur"):
+                    nm_ = final_name(n_, a_[1], ph_)
+                    for ti_ in [a_[1]["t"]] + ([a_[1]["t2"]] if a_[1].get("t2") is not None else []):
+                        fdur_of[(ti_, nm_)] = (a_[1]["rid"], a_[1]["fdur"])
     INF = None
     result: dict[str, Any] = {}
     has_stall = False
@@ -657,8 +679,13 @@ def model_timeline(plan: dict) -> dict:
                     if a[1].get("never") or key not in pubtime:
                         return None
                     t = max(t, pubtime[key])
-                    if a[1].get("fdur"):
-                        pass
+                    if key in fdur_of:
+                        # the first waiter to arrive generates (fdur); later ones join it
+                        rid_, dur_ = fdur_of[key]  # all types of one factory share one product
+                        if rid_ not in genstart or t < genstart[rid_]:
+                            genstart[rid_] = t
+                            changed = True
+                        t = max(t, genstart[rid_] + dur_)
                 elif op == "fail":
                     fail_at.append((t, path, phase))
                     return None
@@ -1103,6 +1130,19 @@ def oracle(sim: Sim, plan: dict) -> list[dict]:
             if runs != list(reversed(regs)):
                 rule = "C05.ownership" if sc_end[4] == "sc_return" else "C07.ownership"
                 v(rule, "teardown_order", f"teardown callbacks ran {runs}; registered (in order) {regs}")
+            # callbacks registered before a service task was up run only after it has ended;
+            # later ones before it is stopped (LIFO position of the task's finalizer)
+            for sr in [r for r in tr if r[4] == "svc_reg"]:
+                se = next((r for r in tr if r[4] == "svc_end" and r[5]["svc"] == sr[5]["svc"]), None)
+                if se is None:
+                    continue
+                for tdr in [r for r in tr if r[4] == "td_reg"]:
+                    run = next((r for r in tr if r[4] == "td_run" and r[5]["td"] == tdr[5]["td"]), None)
+                    if run is None:
+                        continue
+                    rule = "C05.ownership" if sc_end[4] == "sc_return" else "C07.ownership"
+                    if tdr[0] < sr[0] and run[0] < se[0]:
+                        v(rule, "callback_before_service_end", f"teardown callback {tdr[5]['td']} (registered before service task {sr[5]['svc']} was up) ran before that task had ended")
             svcs = [r[5]["svc"] for r in tr if r[4] == "svc_start"]
             ended = [r[5]["svc"] for r in tr if r[4] == "svc_end" and r[0] < exit_seq]
             if sorted(svcs) != sorted(ended):
@@ -1139,8 +1179,6 @@ def _has_giveup(plan: dict) -> bool:
         for ph in ("prepare", "start"):
             for a in n.get(ph) or ():
                 if a[0] == "wait" and a[1].get("giveup") is not None:
-                    return True
-                if a[0] == "pub" and a[1].get("fdur"):
                     return True
     return False
 
@@ -1360,7 +1398,7 @@ class G:
                         spec["fac"] = True
                         if rng.random() < 0.6:
                             spec["fdur"] = 0.0
-                            if self.prop == "C06" and rng.random() < 0.4:
+                            if self.prop in ("C06", "C07", "C05") and rng.random() < 0.4:
                                 spec["fdur"] = rng.choice((0.5, 1.0, 2.0))
                     elif rr < 0.4:
                         spec["td"] = True
@@ -1379,7 +1417,11 @@ class G:
                     acts.append(["td", {"id": f"cb{self.ntd}", "async": rng.random() < 0.5, "dur": rng.choice(DTS[:4])}])
                 elif r < 0.9 and self.nsvc < 3:
                     self.nsvc += 1
-                    acts.append(["svc", {"name": f"s{self.nsvc}", "delay": rng.choice((0.0, 0.0, 0.5))}])
+                    sv: dict[str, Any] = {"name": f"s{self.nsvc}", "delay": rng.choice((0.0, 0.0, 0.5))}
+                    if rng.random() < 0.3:
+                        sv["action"] = "none"
+                        sv["tail"] = rng.choice((0.5, 1.0, 2.0))
+                    acts.append(["svc", sv])
                 elif r < 0.95:
                     acts.append(["childctx"])
                 elif avail or here:
@@ -1426,9 +1468,53 @@ def _forward_waits(g: "G", tree: dict, rng: random.Random) -> None:
             n[ph].remove(w)
 
 
+def _wide_tree(g: "G", rng: random.Random) -> dict:
+    """A root with 33-40 direct children (more than any plausible batch size): an early
+    child waits for a resource that one of the last children publishes, so everything only
+    completes if really *all* children are started concurrently."""
+    n = rng.randint(33, 40)
+    root: dict[str, Any] = {"alias": "", "slot": g.slots.pop(), "prepare": None, "start": [], "children": []}
+    pub_idx = rng.randint(n - 4, n - 1)
+    wait_idx = rng.randint(0, 3)
+    for i in range(n):
+        has_p = rng.random() < 0.3
+        c: dict[str, Any] = {
+            "alias": f"w{i}",
+            "slot": g.slots.pop(),
+            "prepare": [] if has_p else None,
+            "start": [],
+            "children": [],
+            "hard": {"tf": "class", "kw": {}},
+            "ext": None,
+        }
+        if rng.random() < 0.3:
+            c["start"].append(rpause(rng, 0.5))
+        if i == pub_idx:
+            c["start"].append(["p", rng.choice((0, 1, 2)), rng.choice((0.0, 0.5, 1.0))])
+            c["start"].append(["pub", {"rid": "r1", "t": 0, "name": "wide"}])
+        if i == wait_idx:
+            g.nw += 1
+            c["start"].insert(0, ["wait", {"wid": f"w{g.nw}", "t": 0, "name": "wide"}])
+        root["children"].append(c)
+    return root
+
+
 def gen(rng: random.Random, tier: str, prop: str) -> dict:
     g = G(rng, tier, prop)
     backend = "asyncio" if rng.random() < 0.6 else "trio"
+    if prop == "C05" and rng.random() < 0.03:
+        tree = _wide_tree(g, rng)
+        tree["root_kw"] = {}
+        tree["root_tf"] = "class"
+        return {
+            "v": 1,
+            "world": NAME,
+            "property": prop,
+            "backend": backend,
+            "sched": {"policy": rng.choice(("uniform", "coin", "prio", "fifo")), "seed": rng.getrandbits(32)},
+            "tree": tree,
+            "timeout": rng.choice((None, 50)),
+        }
     tree = g.skeleton(0, "")
     tree["root_kw"] = rkw(rng)
     tree["root_tf"] = pick(rng, {"class": 3, "ref": 1, "ep": 1})
